@@ -218,7 +218,11 @@ func cmdCheck(args []string) int {
 	fs := flag.NewFlagSet("check", flag.ExitOnError)
 	tier := fs.String("tier", "quick", "quick|thorough")
 	only := fs.String("only", "", "run only harnesses whose name contains this")
-	solver := fs.String("solver", "z3", "")
+	defSolver := "z3"
+	if _, err := exec.LookPath("z3-new"); err == nil {
+		defSolver = "z3-new" // z3 5.1: 2-4x faster than 4.8.12 on these queries
+	}
+	solver := fs.String("solver", defSolver, "")
 	jobs := fs.Int("j", 14, "parallel workers")
 	noEvidence := fs.Bool("no-evidence", false, "")
 	fs.Parse(args[1:])
